@@ -10,6 +10,7 @@ mod t1_addr;
 mod t1_misc;
 mod t1_pw;
 mod t1_sstcp;
+mod t1_vmess;
 mod util;
 
 use std::io::{BufWriter, Write};
@@ -25,6 +26,7 @@ fn exec_case(f: &[&str]) -> Vec<String> {
     match f[0] {
         "pw" => t1_pw::exec(f),
         "sstcp" => t1_sstcp::exec(f),
+        "vmbody" | "vmsrv" | "vmcli" => t1_vmess::exec(f),
         "trojsrv" | "trojcu" | "trojenc" | "trojsenc" | "s5ir" | "s5cr" | "s5irs" | "s5crs" | "s5udp" | "s5udpenc" | "http" => t1_misc::exec(f),
         "s5enc" | "s5dec" | "s5try" | "vmw" | "vmr" => t1_addr::exec(f),
         _ => vec![format!("UNKNOWN-COMPONENT {}", f[0])],
@@ -63,6 +65,7 @@ fn main() {
             util::quiet_panics();
             match comp {
                 "pw" => t1_pw::generate(&mut out, seed, thorough),
+                "vmess" => t1_vmess::generate(&mut out, seed, thorough),
                 "sstcp" => t1_sstcp::generate(&mut out, seed, thorough),
                 "trojan" => t1_misc::generate_trojan(&mut out, seed, thorough),
                 "socks5" => t1_misc::generate_socks5(&mut out, seed, thorough),
